@@ -100,7 +100,7 @@ def in_cats(self):
     return lambda c: c in self.token_categories
 
 
-@contract(TZ + 'EkernTokenizer.tokenize', props=ALLP)
+@contract(TZ + 'EkernTokenizer.tokenize', props=ALLP + ['C12'])
 class ekern_tokenize:
     """ekern(token) == Export(token, selected categories): tokens of every class, symbolic category set"""
     def inputs(g):
@@ -115,7 +115,7 @@ class ekern_tokenize:
         return export_spec(token, in_cats(self), None)
 
 
-@contract(TZ + 'KernTokenizer.tokenize', props=ALLP)
+@contract(TZ + 'KernTokenizer.tokenize', props=ALLP + ['C12'])
 class kern_tokenize:
     """kern == ekern with the two separator characters removed"""
     def inputs(g):
@@ -130,7 +130,7 @@ class kern_tokenize:
         return plain(token, export_spec(token, in_cats(self), None))
 
 
-@contract(TZ + 'BekernTokenizer.tokenize', props=ALLP)
+@contract(TZ + 'BekernTokenizer.tokenize', props=ALLP + ['C12'])
 class bekern_tokenize:
     """bekern(token) == Export(token, selected categories minus DECORATION): the full encoding with the signifiers removed
     note by note (every note of a chord is kept); non-note tokens are identical to ekern"""
@@ -149,7 +149,7 @@ class bekern_tokenize:
         return basic_spec(token, in_cats(self))
 
 
-@contract(TZ + 'BkernTokenizer.tokenize', props=ALLP)
+@contract(TZ + 'BkernTokenizer.tokenize', props=ALLP + ['C12'])
 class bkern_tokenize:
     """bkern == bekern with the token separator removed"""
     def inputs(g):
